@@ -1,4 +1,6 @@
-package eng
+// Package engarith is E-arith (C20). It is a package of its own because it depends on nothing but the
+// pure-Go allocators package, so that it can also be built for a 32-bit architecture (cmd/varith).
+package engarith
 
 import (
 	"encoding/json"
@@ -30,7 +32,8 @@ type arithEval struct {
 
 type arithEngine struct{}
 
-func init() { register("arith", arithEngine{}) }
+// Engine is the E-arith engine.
+var Engine fw.Engine = arithEngine{}
 
 func (arithEngine) Gen(rng *rand.Rand, tier string, i int) any {
 	n := 5000
@@ -56,15 +59,15 @@ func (arithEngine) Run(ctx *fw.Ctx, cs any) {
 	}
 }
 
-var two128 = new(big.Int).Lsh(big.NewInt(1), 128)
+var Two128 = new(big.Int).Lsh(big.NewInt(1), 128)
 var two64 = new(big.Int).Lsh(big.NewInt(1), 64)
 
-func pattern128(rng *rand.Rand) *big.Int {
+func Pattern128(rng *rand.Rand) *big.Int {
 	v := new(big.Int)
 	switch rng.Intn(10) {
 	case 0: // zero
 	case 1: // all ones
-		v.Sub(two128, big.NewInt(1))
+		v.Sub(Two128, big.NewInt(1))
 	case 2: // single bit
 		v.Lsh(big.NewInt(1), uint(rng.Intn(128)))
 	case 3: // low half all ones
@@ -83,7 +86,7 @@ func pattern128(rng *rand.Rand) *big.Int {
 	case 7: // documentation prefix-like
 		v.SetString("20010db8000000000000000000000000", 16)
 		v.Add(v, new(big.Int).Lsh(new(big.Int).SetUint64(rng.Uint64()>>uint(rng.Intn(64))), uint(rng.Intn(64))))
-		v.Mod(v, two128)
+		v.Mod(v, Two128)
 	default:
 		v.Add(new(big.Int).Lsh(new(big.Int).SetUint64(rng.Uint64()), 64), new(big.Int).SetUint64(rng.Uint64()))
 	}
@@ -120,7 +123,7 @@ func genArith(rng *rand.Rand) *arithEval {
 	if rng.Intn(4) == 0 {
 		p = []int{0, 1, 8, 32, 63, 64, 65, 127, 128}[rng.Intn(9)]
 	}
-	base := pattern128(rng)
+	base := Pattern128(rng)
 	// align base to /p
 	shift := uint(128 - p)
 	base.Rsh(base, shift)
@@ -137,10 +140,10 @@ func genArith(rng *rand.Rand) *arithEval {
 	case 2: // low bits only
 		x = new(big.Int).Add(base, new(big.Int).SetUint64(patternU64(rng)))
 	default:
-		x = pattern128(rng)
+		x = Pattern128(rng)
 	}
-	if x.Cmp(two128) >= 0 {
-		x.Sub(two128, big.NewInt(1))
+	if x.Cmp(Two128) >= 0 {
+		x.Sub(Two128, big.NewInt(1))
 	}
 	if x.Cmp(base) < 0 {
 		// keep the ordering the statement quantifies over
@@ -151,7 +154,7 @@ func genArith(rng *rand.Rand) *arithEval {
 	return &arithEval{P: p, Base: hex128(base), X: hex128(x), N: patternU64(rng)}
 }
 
-func ipOf(v *big.Int) net.IP {
+func IPOf(v *big.Int) net.IP {
 	b := v.Bytes()
 	ip := make(net.IP, 16)
 	copy(ip[16-len(b):], b)
@@ -165,13 +168,13 @@ func arithOne(ctx *fw.Ctx, ev *arithEval) {
 	ctx.Eval("C20", 1)
 	nontrivial := p == 63 || p == 64 || p == 65
 	report := func(sig, format string, a ...any) {
-		ctx.ViolWith("C20", sig, &arithCase{One: ev}, "p=%d base=%s x=%s n=%d: %s", p, ipOf(base), ipOf(x), ev.N, fmt.Sprintf(format, a...))
+		ctx.ViolWith("C20", sig, &arithCase{One: ev}, "p=%d base=%s x=%s n=%d: %s", p, IPOf(base), IPOf(x), ev.N, fmt.Sprintf(format, a...))
 	}
 
 	// --- Offset, both argument orders
 	wantIdx, wantOvf := model.BlockIndex(x, base, p)
 	for order := 0; order < 2; order++ {
-		a, b := ipOf(x), ipOf(base)
+		a, b := IPOf(x), IPOf(base)
 		if order == 1 {
 			a, b = b, a
 		}
@@ -200,18 +203,18 @@ func arithOne(ctx *fw.Ctx, ev *arithEval) {
 
 	// --- AddPrefixes
 	wantSum, sumOvf := model.AddBlocks(base, ev.N, p)
-	got, err := allocators.AddPrefixes(ipOf(base), ev.N, uint64(p))
+	got, err := allocators.AddPrefixes(IPOf(base), ev.N, uint64(p))
 	switch {
 	case sumOvf && err == nil:
 		report("addprefixes-wrap", "AddPrefixes returned %s, want overflow error (true sum %s*2^(128-%d) beyond the address space)", got, new(big.Int).SetUint64(ev.N), p)
 	case !sumOvf && err != nil:
-		report("addprefixes-spurious-error", "AddPrefixes returned error %v, want %s", err, ipOf(wantSum))
+		report("addprefixes-spurious-error", "AddPrefixes returned error %v, want %s", err, IPOf(wantSum))
 	case !sumOvf:
 		if len(got) != 16 || new(big.Int).SetBytes(got).Cmp(wantSum) != 0 {
-			report("addprefixes-value", "AddPrefixes = %s, want %s", got, ipOf(wantSum))
+			report("addprefixes-value", "AddPrefixes = %s, want %s", got, IPOf(wantSum))
 		} else {
 			// inverse law
-			back, err := allocators.Offset(got, ipOf(base), p)
+			back, err := allocators.Offset(got, IPOf(base), p)
 			if err != nil || back != ev.N {
 				report("inverse", "Offset(AddPrefixes(base,n,p), base, p) = %d, %v; want n", back, err)
 			}
@@ -234,7 +237,7 @@ func arithOne(ctx *fw.Ctx, ev *arithEval) {
 	if nontrivial {
 		ctx.Nontrivial("C20", fmt.Sprintf("%d/%s/%s/%d", p, ev.Base, ev.X, ev.N))
 		if ctx.WantSample("C20") {
-			ctx.Sample("C20", map[string]any{"p": p, "base": ipOf(base).String(), "x": ipOf(x).String(), "n": ev.N,
+			ctx.Sample("C20", map[string]any{"p": p, "base": IPOf(base).String(), "x": IPOf(x).String(), "n": ev.N,
 				"offset_want": fmt.Sprint(wantIdx), "offset_overflow": wantOvf, "sum_overflow": sumOvf})
 		}
 	}
